@@ -40,19 +40,20 @@ Theorem C13_host_adjacent_path_decoded_refuted :
 Proof. exact host_adjacent_path_decoded_refuted. Qed.
 Print Assumptions C13_host_adjacent_path_decoded_refuted.
 
-(* the status: 0 (not a redirect route) or 3xx for every option text that does not overflow
-   int; a three-digit 3xx text is kept as it is *)
-Theorem C13_code_range_on_domain : forall opt, code_overflows opt = false ->
-  redirect_code opt = 0%Z \/ (300 <= redirect_code opt <= 399)%Z.
-Proof. exact code_range_on_domain. Qed.
-Print Assumptions C13_code_range_on_domain.
+(* the status: 0 (not a redirect route) or 3xx for EVERY option text; a three-digit 3xx text
+   is kept as it is *)
+Theorem C13_code_range : forall opt, redirect_code opt = 0%Z \/ (300 <= redirect_code opt <= 399)%Z.
+Proof. exact code_range. Qed.
+Print Assumptions C13_code_range.
 Theorem C13_code_three_digits : forall a b, is_digit a = true -> is_digit b = true ->
   redirect_code [51; a; b] = (300 + 10 * Z.of_N (a - 48) + Z.of_N (b - 48))%Z.
 Proof. exact code_three_digits. Qed.
 Print Assumptions C13_code_three_digits.
-(* finding F-C13-5 *)
+(* finding F-C13-5, repaired in /repo by fix fa24a7f: the option parsing before the repair
+   ([redirect_code_unrepaired]) left Atoi's saturated value in the field *)
 Theorem C13_code_range_refuted :
-  exists opt, redirect_code opt = 9223372036854775807%Z /\ code_overflows opt = true.
+  exists opt, redirect_code_unrepaired opt = 9223372036854775807%Z /\ code_overflows opt = true
+              /\ redirect_code opt = 0%Z.
 Proof. exact code_range_refuted. Qed.
 Print Assumptions C13_code_range_refuted.
 
@@ -67,24 +68,24 @@ Theorem C13_no_upstream_on_redirect : forall q cands st t ws,
 Proof. exact no_upstream_on_redirect. Qed.
 Print Assumptions C13_no_upstream_on_redirect.
 
-(* the host loop: with the request's scheme announced in X-Forwarded-Proto, the answering
-   host is the first one whose route does not point back at the request (reference loop
-   [ref_lookup]) - outside finding region 2; and a redirect to the request itself can only
-   come back as the very last candidate *)
+(* the host loop: with the request's scheme announced in X-Forwarded-Proto (finding region 3
+   otherwise), the answering host is the first one whose route does not point back at the
+   request, none if there is no such host (reference loop [ref_lookup]); and Lookup never
+   returns a redirect that fails its own self test *)
 Theorem C13_self_redirect_skipped : forall q cands,
-  q_xfp q <> [] -> region_last_skipped q cands = false -> fst (lookup q cands) = ref_lookup q cands.
+  q_xfp q <> [] -> fst (lookup q cands) = ref_lookup q cands.
 Proof. exact self_redirect_skipped. Qed.
 Print Assumptions C13_self_redirect_skipped.
-Theorem C13_self_redirect_only_last : forall q cands t,
-  fst (lookup q cands) = Some t -> is_redirect t = true -> is_self (build_redirect_url t q) q = true ->
-  last cands None = Some t.
-Proof. exact self_redirect_only_last. Qed.
-Print Assumptions C13_self_redirect_only_last.
-(* finding F-C13-3 *)
+Theorem C13_self_redirect_never_returned : forall q cands t,
+  fst (lookup q cands) = Some t -> is_redirect t = true -> is_self (build_redirect_url t q) q = false.
+Proof. exact self_redirect_never_returned. Qed.
+Print Assumptions C13_self_redirect_never_returned.
+(* finding F-C13-3, repaired in /repo by fix 4431a54: the loop before the repair
+   ([lookup_unrepaired]) returned the skipped redirect when it belonged to the last host *)
 Theorem C13_self_redirect_last_host_refuted :
-  exists q cands t, q_xfp q <> [] /\ fst (lookup q cands) = Some t /\ ref_lookup q cands = None
-    /\ fst (handle q cands []) = RRedirect 301%Z (bs "http://foo.com/x")
-    /\ points_back (build_redirect_url t q) q = true.
+  exists q cands t, q_xfp q <> [] /\ fst (lookup_unrepaired q cands) = Some t /\ ref_lookup q cands = None
+    /\ points_back (build_redirect_url t q) q = true
+    /\ fst (lookup q cands) = None.
 Proof. exact self_redirect_last_host_refuted. Qed.
 Print Assumptions C13_self_redirect_last_host_refuted.
 (* finding F-C13-4 *)
